@@ -3,18 +3,96 @@ import Abyss.Lemmas.AllocL
 import Abyss.Lemmas.ChainL
 import Abyss.Lemmas.RelinkL
 import Abyss.Lemmas.SpecL
+import Abyss.Lemmas.DelAbs
+import Abyss.Lemmas.DelFinish
+import Abyss.Lemmas.DelUnlink
 /-!
 # `del` refines the ideal map and keeps the invariant
 -/
 namespace Abyss
 namespace Store
+namespace Del
+
+/-- the last step of `del` -/
+def finishStep (s1 : Store) (valOff off : Nat) (value : List Nat) : Option (Store × Option (List Nat)) :=
+  match RecFile.deletePiece valCfg s1.vf valOff with
+  | none => none
+  | some vf' =>
+    match RecFile.deletePiece keyCfg s1.kf off with
+    | none => none
+    | some kf' =>
+      some ({ s1 with vf := vf', kf := kf', count := s1.count - 1 }, some value)
+
+/-- `del` on a key that `find` locates: unlink, then free -/
+theorem del_found {kt : KeyType} {s : Store} {k : List Nat} {o prev sz vs : Nat} {r : KeyRec} {v : List Nat}
+    (hf : find kt s k = some (some (o, prev))) (hg : s.kf.get o = some (.used sz r))
+    (hv : s.vf.get r.valOff = some (.used vs v)) :
+    s.del kt k = (unlinkStep (bucketOf k s.n) s prev r.next).bind fun s1 => finishStep s1 r.valOff o v := by
+  unfold del
+  simp only [hf, hg, hv]
+  unfold unlinkStep finishStep
+  cases hh : (if prev = 0 then some (s.writeHead (bucketOf k s.n) r.next) else
+  match s.kf.get prev with
+  | some (.used _ pr) =>
+    let pr' := { pr with next := r.next }
+    match RecFile.rewrite keyCfg s.kf prev (keyNeed pr') pr' with
+    | none => none
+    | some (p', kf') =>
+      let s' := { s with kf := kf' }
+      if p' = prev then some s' else relink (bucketOf k s.n) (s'.kf.slots.length + 1) s' prev p'
+  | _ => none) <;> rfl
+
+theorem del_absent {kt : KeyType} {s : Store} {k : List Nat} (hf : find kt s k = some none) :
+    s.del kt k = some (s, none) := by
+  unfold del
+  simp only [hf]
+
+/-- the last step never fails on a state whose only defect is the unlinked victim `o` -/
+theorem finish_spec {kt : KeyType} {s1 : Store} {o sz vs : Nat} {r : KeyRec} {v : List Nat}
+    (h1 : InvX kt s1 o) (hu : s1.kf.used o = some (sz, r)) (hv : s1.vf.used r.valOff = some (vs, v)) :
+    ∃ s2, finishStep s1 r.valOff o v = some (s2, some v) ∧ Inv kt s2 ∧ s2.n = s1.n ∧
+      (∀ k' vo, HasKV s2 k' vo ↔ k' ≠ r.key ∧ HasKV s1 k' vo) ∧
+      (∀ vo, vo ≠ r.valOff → s2.vf.used vo = s1.vf.used vo) := by
+  obtain ⟨vf', hdv, vwf', hv0, hvs, -⟩ := RecFile.deletePiece_spec valCfg_ok h1.vwf hv
+  obtain ⟨kf', hdk, kwf', hk0, hks, hkc, hkl, -⟩ := RecFile.deletePiece_spec keyCfg_ok h1.kwf hu
+  refine ⟨{ s1 with vf := vf', kf := kf', count := s1.count - 1 }, ?_,
+    finish_inv h1 hu kwf' vwf' hk0 hks hkc hkl hv0 hvs, rfl, finish_hasKV h1 hu hk0 hks, hvs⟩
+  unfold finishStep
+  rw [hdv, hdk]
+
+end Del
 
 /-- `delete` of an admissible key never fails, returns the value the ideal map held (or `none`),
 re-establishes the invariant and acts on the abstraction as the ideal map's `del` — wherever the
 key sits in its chain, and also when rewriting the predecessor's link moves the predecessor. -/
 theorem del_spec {kt : KeyType} {s : Store} (h : Inv kt s) (k : List Nat) (hk : KeyOK kt k) :
     ∃ s', s.del kt k = some (s', Spec.get (abs s) k) ∧ Inv kt s' ∧ s'.n = s.n ∧
-      Spec.Equiv (abs s') (Spec.del (abs s) k) := by sorry
+      Spec.Equiv (abs s') (Spec.del (abs s) k) := by
+  rcases find_spec h k hk with ⟨o, sz, r, l1, l2, hf, hu, hkey, hc⟩ | ⟨hf, hno⟩
+  · subst hkey
+    obtain ⟨vs, v, hv⟩ := h.val_used o sz r hu
+    have hget : Spec.get (abs s) r.key = some v :=
+      (abs_get_some h r.key v).mpr ⟨r.valOff, vs, ⟨o, sz, r, hu, rfl, rfl⟩, hv⟩
+    have hb : bucketOf r.key s.n < s.n := Del.bucketOf_lt _ h.npos
+    obtain ⟨s1, hul, h1, hvf, _, hn1, hu1, hkv1⟩ := Del.unlink_spec h hb hc hu
+    obtain ⟨s2, hfin, h2, hn2, hkv2, hvs2⟩ := Del.finish_spec h1 hu1 (by rw [hvf]; exact hv)
+    refine ⟨s2, ?_, h2, hn2.trans hn1, ?_⟩
+    · rw [Del.del_found hf (Del.used_eq_some.mp hu) (Del.used_eq_some.mp hv), hul, hget]
+      exact hfin
+    · refine Del.abs_del_equiv h h2 r.key ?_ ?_
+      · intro k' vo
+        rw [hkv2, hkv1]
+      · intro k' vo hne hh
+        rw [hvs2 vo, hvf]
+        intro e
+        obtain ⟨o', sz', r', hu', hk', hvo'⟩ := hh
+        have := h.val_inj o' o sz' sz r' r hu' hu (by rw [hvo', e])
+        subst this
+        rw [hu] at hu'
+        cases hu'
+        exact hne hk'.symm
+  · have hget : Spec.get (abs s) k = none := (abs_get_none h k).mpr hno
+    exact ⟨s, by rw [Del.del_absent hf, hget], h, rfl, Del.abs_del_absent h k hno⟩
 
 end Store
 end Abyss
